@@ -363,17 +363,9 @@ func runJobs(l *Loaded, fn *ssa.Function, g *JobGroup, argLists [][]int64, tier 
 	if ncpu > 16 {
 		ncpu = 16
 	}
-	par := len(argLists)
-	if par > ncpu {
-		par = ncpu
-	}
-	if par < 1 {
-		par = 1
-	}
-	workersPer := ncpu / par
-	if workersPer < 1 {
-		workersPer = 1
-	}
+	initCPUTokens(ncpu)
+	par := ncpu
+	workersPer := ncpu
 	if g.Workers > 0 {
 		workersPer = g.Workers
 	}
@@ -406,7 +398,7 @@ func runJobs(l *Loaded, fn *ssa.Function, g *JobGroup, argLists [][]int64, tier 
 					to = 300000
 				}
 			}
-			res := Explore(l.prog, fn, args, ExploreOpts{Workers: workersPer, Solver: solver, TimeoutMs: to, Budget: budget, MaxPaths: g.MaxPaths, MaxFailures: 50, Verbose: false})
+			res := Explore(l.prog, fn, args, ExploreOpts{Workers: workersPer, Solver: solver, TimeoutMs: to, Budget: budget, MaxPaths: g.MaxPaths, MaxFailures: 5000, Verbose: false})
 			if verbose {
 				fmt.Fprintf(os.Stderr, "job %s%v: paths=%d %v wall=%.1fs\n", g.Name, xs, res.Paths, res.Counts, res.WallS)
 			}
